@@ -83,7 +83,15 @@ func zzvNewMemoryDagService() ipld.DAGService { return zzvNewServ() }
 // occurrence in a table of all inputs hashed so far — a function of the input, injective by construction.
 var zzvHashed [][]byte
 
+// zzvHashUF selects the second hash model: an uninterpreted function with pairwise collision freedom
+// (verifrt.HashUF), used when the hashed bytes are symbolic, so that CIDs are symbolic values and every CID
+// comparison made by Diff / the editor / the DAG service is a condition the solver decides.
+var zzvHashUF bool
+
 func zzvSum(data []byte, code uint64, length int) (mh.Multihash, error) {
+	if zzvHashUF {
+		return mh.Encode(verifrt.HashUF("crypto:sha256", data, 32), code)
+	}
 	idx := -1
 	for i, d := range zzvHashed {
 		if string(d) == string(data) {
@@ -208,6 +216,7 @@ func zzvClosed(ctx context.Context, s ipld.DAGService, n ipld.Node) bool {
 func zzvRun(depth, fan, files int, mixKinds bool) {
 	ctx := context.Background()
 	zzvHashed = nil
+	zzvHashUF = false
 	fileData := make([][]byte, files)
 	for i := range fileData {
 		fileData[i] = []byte{'f', byte('0' + i)}
@@ -275,4 +284,141 @@ func HarnessC14DiffApplyDeep() {
 // HarnessC14DiffApply: all pairs of directory trees over a common pool of files.
 func HarnessC14DiffApply() {
 	zzvRun(verifrt.Param("DEPTH", 2), verifrt.Param("FAN", 2), verifrt.Param("FILES", 2), verifrt.Param("MIX", 0) != 0)
+}
+
+// ---------------------------------------------------------------------------------------------------
+// Symbolic leaf identities: tree SHAPE is forked, every file's payload is a symbolic byte. Which files of a and b
+// are equal / replaced is then decided by the solver, through the (collision-free, uninterpreted) hash of the real
+// dag-pb encodings: all CIDs are symbolic.
+// ---------------------------------------------------------------------------------------------------
+
+type zzvSymTree struct {
+	kind [3]int // 0 absent, 1 file, 2 directory
+	data [3]byte
+	sub  [3]*zzvSymTree
+}
+
+func zzvGenSym(tag string, depth, fan, subfan int) *zzvSymTree {
+	t := &zzvSymTree{}
+	n := fan
+	if depth == 1 {
+		n = subfan
+	}
+	for k := 0; k < n; k++ {
+		hi := 1
+		if depth > 1 {
+			hi = 2
+		}
+		t.kind[k] = verifrt.NondetRange(tag, 0, hi)
+		switch t.kind[k] {
+		case 1:
+			t.data[k] = verifrt.NondetU8(tag + "data")
+		case 2:
+			t.sub[k] = zzvGenSym(tag, depth-1, fan, subfan)
+		}
+	}
+	return t
+}
+
+func zzvSymSameKinds(a, b *zzvSymTree) bool {
+	for k := range a.kind {
+		if a.kind[k] == 0 || b.kind[k] == 0 {
+			continue
+		}
+		if a.kind[k] != b.kind[k] {
+			return false
+		}
+		if a.kind[k] == 2 && !zzvSymSameKinds(a.sub[k], b.sub[k]) {
+			return false
+		}
+	}
+	return true
+}
+
+// zzvSymDiffer: 0 iff the two trees are the same tree (same shape, and - decided by the solver - same payloads).
+func zzvSymDiffer(a, b *zzvSymTree) byte {
+	d := byte(0)
+	for k := range a.kind {
+		if a.kind[k] != b.kind[k] {
+			return 1
+		}
+		switch a.kind[k] {
+		case 1:
+			d |= a.data[k] ^ b.data[k]
+		case 2:
+			d |= zzvSymDiffer(a.sub[k], b.sub[k])
+		}
+	}
+	return d
+}
+
+func zzvSymBuild(ctx context.Context, s *zzvServ, t *zzvSymTree) *dag.ProtoNode {
+	n := new(dag.ProtoNode)
+	for k, kind := range t.kind {
+		if kind == 0 {
+			continue
+		}
+		var child *dag.ProtoNode
+		if kind == 1 {
+			child = dag.NodeWithData([]byte{'f', t.data[k]})
+		} else {
+			child = zzvSymBuild(ctx, s, t.sub[k])
+		}
+		if err := s.Add(ctx, child); err != nil {
+			panic(err)
+		}
+		if err := n.AddNodeLink(zzvNames[k], child); err != nil {
+			panic(err)
+		}
+	}
+	if err := s.Add(ctx, n); err != nil {
+		panic(err)
+	}
+	return n
+}
+
+// HarnessC14DiffApplySym: shapes forked, file payloads symbolic, CIDs symbolic (hash = collision-free UF).
+func HarnessC14DiffApplySym() {
+	ctx := context.Background()
+	zzvHashUF = verifrt.Symbolic()
+	depth, fan, subfan := verifrt.Param("DEPTH", 2), verifrt.Param("FAN", 2), verifrt.Param("SUBFAN", 1)
+	ta := zzvGenSym("a", depth, fan, subfan)
+	tb := zzvGenSym("b", depth, fan, subfan)
+	verifrt.Assume(zzvSymSameKinds(ta, tb)) // file <-> directory under one name is outside the claim (see spec)
+	s := zzvNewServ()
+	a := zzvSymBuild(ctx, s, ta)
+	b := zzvSymBuild(ctx, s, tb)
+	differ := zzvSymDiffer(ta, tb)
+	aCid, bCid := a.Cid(), b.Cid()
+	// content addressing: equal CIDs <=> equal trees (this is where the solver ties CIDs to payloads)
+	if aCid == bCid {
+		verifrt.Assert("C14.sym.model.equal-cids-mean-equal-trees", differ == 0)
+	} else {
+		verifrt.Assert("C14.sym.model.different-cids-mean-different-trees", differ != 0)
+	}
+
+	changes, err := Diff(ctx, s, a, b)
+	verifrt.Observe("nchanges", len(changes))
+	verifrt.Assert("C14.sym.diff-succeeds", err == nil)
+	if len(changes) == 0 {
+		verifrt.Assert("C14.sym.empty-diff-only-for-equal-trees", differ == 0)
+	} else {
+		verifrt.Assert("C14.sym.diff-of-equal-trees-is-empty", differ != 0)
+	}
+	src, err := s.Get(ctx, aCid)
+	if err != nil {
+		panic(err)
+	}
+	res, err := ApplyChange(ctx, s, src.(*dag.ProtoNode), changes)
+	verifrt.Observe("applied", err == nil)
+	verifrt.Assert("C14.sym.apply-succeeds", err == nil)
+	if err == nil {
+		verifrt.Assert("C14.sym.apply-diff-reproduces-target-cid", res.Cid() == bCid)
+		back, err := Diff(ctx, s, res, b)
+		verifrt.Assert("C14.sym.result-has-no-diff-to-target", err == nil && len(back) == 0)
+	}
+	// Diff(a, a) is empty
+	self, err := Diff(ctx, s, a, a)
+	verifrt.Assert("C14.sym.diff-with-itself-is-empty", err == nil && len(self) == 0)
+	verifrt.Reach("end")
 }
